@@ -50,7 +50,8 @@ type Task struct {
 	wantRead  bool
 	afterStop int
 	kids      int
-	locks     int // simulated locks held
+	locks     int         // simulated locks held
+	tdLocks   map[any]int // locks taken after Stop (not simulated any more, but counted: see Yield)
 	rng       *rand.Rand
 	Steps     int
 	sim       *Sim
@@ -575,6 +576,13 @@ func (s *Sim) acquire(key any, read bool) *Task {
 	for {
 		s.mu.Lock()
 		if s.stopping.Load() {
+			// teardown: locks are real again, but a task that holds one must not be ended at a yield (the lock
+			// would stay locked for the rest of the process): count it
+			if t.tdLocks == nil {
+				t.tdLocks = map[any]int{}
+			}
+			t.tdLocks[key]++
+			t.locks++
 			s.mu.Unlock()
 			return nil
 		}
@@ -596,6 +604,11 @@ func (s *Sim) acquire(key any, read bool) *Task {
 			return t
 		}
 		if s.stopping.Load() {
+			if t.tdLocks == nil {
+				t.tdLocks = map[any]int{}
+			}
+			t.tdLocks[key]++
+			t.locks++
 			s.mu.Unlock()
 			return nil
 		}
@@ -620,6 +633,12 @@ func (s *Sim) release(key any, read bool) {
 		return
 	}
 	s.mu.Lock()
+	if t.tdLocks[key] > 0 {
+		t.tdLocks[key]--
+		t.locks--
+		s.mu.Unlock()
+		return
+	}
 	if ls := s.locks[key]; ls != nil {
 		if read {
 			if ls.readers[t] > 0 {
